@@ -18,6 +18,7 @@ inductive Fault
   | chunkPartial                          -- chunked: one full chunk (5 bytes), part of a second (3 bytes), close
   | upgrade                               -- 101 Switching Protocols, then 17 bytes
   | early (status bodyLen : Nat)          -- `103 Early Hints`, then a complete response with this status
+  | trailer                               -- a complete chunked 200 (5 bytes) that announces `Trailer: X-Resp` and sends its value after the body
 deriving DecidableEq, Repr
 
 /-- the error flags `handleProxyError` looks at, in its order -/
@@ -104,6 +105,8 @@ def outcome (s : Setup) (f : Fault) : Outcome :=
   | .upgrade => { client := .upgraded, at_ := 0, logStatus := 101, logBytes := some 0, claimed := true }
   -- an informational response is passed on and changes nothing about the final one
   | .early st n => full st n
+  -- a trailer is part of a complete response: status and body as sent
+  | .trailer => full 200 5
 
 /-- the client goes away after `abortAt` while the target has not answered -/
 def outcomeAborted (abortAt : Nat) : Outcome :=
